@@ -259,7 +259,9 @@ def _is_normal_reduce_expr(expr: IndexLambda) -> bool:
             else:
                 return False
 
-    return True
+    # every axis of the result must come from an axis of the operand (an
+    # index lambda may have further axes that its expression does not use)
+    return i_out_dim == len(expr.shape)
 
 
 _SIMPLE_PYMBOLIC_BINARY_OP_MAP = {p.Sum:        BinaryOpType.ADD,
